@@ -1,6 +1,7 @@
 import Walrus.Proofs.ParseTree
 import Walrus.CodeMaps
 import Walrus.Gc
+import Walrus.Agree
 
 /-
 The hypothesis of the emission-totality theorems (`BodiesWF`, Proofs/GcCodeEmit.lean) in decidable
@@ -134,5 +135,58 @@ def bodiesOKc (m : ModuleM) (pfs : List ParsedFunc) : Bool :=
       bodyOK { funcs := List.range (importedCount m "f" + (m.code.zip m.funcs).length), types := dedupIds m.sigs,
                locals := pf.localTys.map (·.1), sigs := m.sigs } ops
     | _, _ => true
+
+/-! the operand shape of operators (`OpShape`, Proofs/AgreeMaps.lean), in decidable form -/
+
+/-- index spaces in which ids are indices on both sides of a round trip without a pass -/
+def idSpace (sp : String) : Bool := sp = "t" || sp = "g" || sp = "m" || sp = "d" || sp = "e"
+
+def argIs (sp : String) (a : Arg) : Bool := match a with | .ref s _ => s == sp | _ => false
+
+def opShapedB (o : Op) : Bool :=
+  if o.name = "Nop" then true
+  else if o.name = "Br" || o.name = "BrIf" then (match o.args with | [a] => argIs "l" a | _ => false)
+  else if o.name = "BrTable" then (!o.args.isEmpty) && o.args.all (argIs "l")
+  else if o.name = "Return" || o.name = "Unreachable" then o.args.isEmpty
+  else if o.name = "Call" || o.name = "RefFunc" || o.name = "ReturnCall" then
+    (match o.args with | [a] => argIs "f" a | _ => false)
+  else if o.name = "CallIndirect" || o.name = "ReturnCallIndirect" then
+    (match o.args with | [a, b] => argIs "y" a && argIs "t" b | _ => false)
+  else if o.name = "LocalGet" || o.name = "LocalSet" || o.name = "LocalTee" then
+    (match o.args with | [a] => argIs "x" a | _ => false)
+  else o.args.all (fun a => match a with | .ref sp _ => idSpace sp | _ => true) && (wrapOffsets o.args == o.args)
+
+mutual
+def PI.shapedB : PI → Bool
+  | .op o _ => opShapedB o
+  | .blk _ _ b _ => b.shapedB
+  | .if1 _ _ t _ => t.shapedB
+  | .if2 _ _ t _ e _ => t.shapedB && e.shapedB
+def PL.shapedB : PL → Bool
+  | .nil => true
+  | .cons h t => h.shapedB && t.shapedB
+end
+
+-- the part of a source tree that survives: what follows an unconditional transfer in its sequence is
+-- dropped (nothing is asked of dead code: it is never emitted)
+mutual
+def PI.live : PI → PI
+  | .op o loc => .op o loc
+  | .blk o loc b el => .blk o loc b.live el
+  | .if1 o loc t el => .if1 o loc t.live el
+  | .if2 o loc t l2 e el => .if2 o loc t.live l2 e.live el
+def PL.live : PL → PL
+  | .nil => .nil
+  | .cons (.op o loc) t => if transfers o.name then .cons (.op o loc) .nil else .cons (.op o loc) t.live
+  | .cons (.blk o loc b el) t => .cons (.blk o loc b.live el) t.live
+  | .cons (.if1 o loc b el) t => .cons (.if1 o loc b.live el) t.live
+  | .cons (.if2 o loc b l2 e el) t => .cons (.if2 o loc b.live l2 e.live el) t.live
+end
+
+/-- the live operators of the flat body of a function have the decoder's operand shapes -/
+def flatShapedB (ops : List (Op × Nat)) : Bool :=
+  match unflat ops with
+  | some (body, _) => body.live.shapedB
+  | none => false
 
 end Walrus
